@@ -253,7 +253,7 @@ def _unshift(db, chk):
             chk.ob(rule, f"convert_time_series_to_events (name column present={has_name}): one normal path", None, where, found=len(runs))
             continue
         r = runs[0]
-        E = r.env.get("events_df")
+        E = next((v for v in r.env.values() if isinstance(v, Frame) and v.has("ph") and v.base == S), None)
         if not isinstance(E, Frame):
             chk.ob(rule, "events frame built", None, where)
             continue
